@@ -150,7 +150,11 @@ def judge(case, val, out):
         if not (c > 0) or (not case["ws"] and c != 1.0):
             return _sv("scale not positive / not exactly 1 without scale estimation (c = %r)" % c)
         own, others = resids[0], resids[1:]
-        slack = 1e-9 * max(own, n * (1e-16 * big) ** 2 * 1e6, 1e-300) + n * (1e-13 * big) ** 2
+        # rounding budget of a residual sum evaluated in binary64: every c R x_i + t - y_i carries an absolute error
+        # e ~ 50 ulp of the largest intermediate coordinate, so sum (r_i + e_i)^2 differs from sum r_i^2 by at most
+        # 2 sqrt(n * sum r_i^2) e + n e^2 (Cauchy-Schwarz); 1e-9 relative on top
+        e = 1e-14 * max(big, abs(c) * float(np.abs(x).max()))
+        slack = 1e-9 * max(own, 1e-300) + 2.0 * math.sqrt(n * max(own, 0.0)) * e + n * (10 * e) ** 2
         for k, o in enumerate(others):
             if own > o + slack:
                 return _sv("residual %r is larger than that of competitor %d of the same class (%r)" % (own, k, o))
